@@ -808,7 +808,7 @@ def report(prop, tier, seed, results, extras, wall, rebaseline, replay):
             refs = sorted({'%s -> %s' % (ref, st['qual']) for ref, lst in (getattr(u, 'auto_map', None) or {}).items() for st in lst
                            if st.get('kind') != 'const' and (only_fns is None or ref in only_fns)})
             if refs:
-                undecided.append('%s: new callee(s) without a contract inside a writer of the thread stream (%s); what they do under the seq lock is not known to the unit'
+                undecided.append('%s: new callee(s) without a contract inside a writer of a numbered stream (%s); what they write, and with which seq, is not known to the unit'
                                  % (u.name, ', '.join(refs)))
         if u.mutants:
             mutants.extend(dict(unit=u.name, **m) for m in u.mutants)
